@@ -13,7 +13,7 @@
 From Coq Require Import List Arith NArith ZArith Bool Lia.
 From Coq.Strings Require Import Byte.
 From RimeV Require Import Base.Bytes Base.ListX Eng.Keys Eng.Cand Eng.Menu Eng.Segm Eng.Ctx Eng.Engine Eng.Procs
-     Eng.Api Eng.Oracle Eng.Spec Gen.Keymaps.
+     Eng.Api Eng.Oracle Eng.Spec Eng.KbFrame Gen.Keymaps.
 Import ListNotations.
 
 Definition letter (b : byte) : Prop := mem_byte b lower_alphabet = true.
@@ -53,13 +53,23 @@ Definition has_ac (cfg : config) : bool := match cf_processors cfg with PAsciiCo
 Definition has_as (cfg : config) : bool := match cf_segmentors cfg with SgAscii :: _ => true | _ => false end.
 Definition ac_pre (cfg : config) : list proc_id := if has_ac cfg then [PAsciiComposer] else [].
 Definition as_pre (cfg : config) : list segm_id := if has_as cfg then [SgAscii] else [].
+(** ... and key_binder between ascii_composer and the speller (the stock order), under the hypothesis that no binding
+    accepts a key of the alphabet ([no_alphabet_binding]) *)
+Definition is_kb (p : proc_id) : bool := match p with PKeyBinder => true | _ => false end.
+Definition has_kb (cfg : config) : bool := existsb is_kb (cf_processors cfg).
+Definition kb_pre (cfg : config) : list proc_id := if has_kb cfg then [PKeyBinder] else [].
+Definition c05_code (code : Z) : Prop :=
+  (97 <= code <= 122)%Z \/ In code [XK_BackSpace; XK_Delete; XK_KP_Left; XK_KP_Right; XK_Home; XK_End; XK_Escape].
+Definition no_alphabet_binding (cfg : config) : Prop :=
+  forall code, c05_code code -> kb_vector cfg (mkKey code 0) = [].
 Definition edit_chain (cfg : config) : Prop :=
-  (cf_processors cfg = ac_pre cfg ++ [PSpeller; PSelector; PNavigator; PEditor] /\ cf_segmentors cfg = as_pre cfg ++ [SgAbc; SgFallback]) \/
-  (cf_processors cfg = ac_pre cfg ++ [PSpeller; PPunctuator; PSelector; PNavigator; PEditor] /\
+  (cf_processors cfg = ac_pre cfg ++ kb_pre cfg ++ [PSpeller; PSelector; PNavigator; PEditor] /\ cf_segmentors cfg = as_pre cfg ++ [SgAbc; SgFallback]) \/
+  (cf_processors cfg = ac_pre cfg ++ kb_pre cfg ++ [PSpeller; PPunctuator; PSelector; PNavigator; PEditor] /\
    cf_segmentors cfg = as_pre cfg ++ [SgAbc; SgPunct; SgFallback] /\ no_letter_punct cfg).
 Definition edit_cfg (cfg : config) : Prop :=
   cf_alphabet cfg = lower_alphabet /\ cf_delims cfg = [x20; x27] /\ cf_initials cfg = lower_alphabet /\
   cf_finals cfg = [] /\ cf_use_space cfg = false /\ cf_page_size cfg = 5%Z /\ cf_select_keys cfg = [] /\
+  (has_kb cfg = true -> no_alphabet_binding cfg) /\
   edit_chain cfg.
 
 Section Edit.
@@ -74,7 +84,8 @@ Let Hfinals : cf_finals cfg = [] := proj1 (proj2 (proj2 (proj2 Hcfg))).
 Let Husp : cf_use_space cfg = false := proj1 (proj2 (proj2 (proj2 (proj2 Hcfg)))).
 Let Hpsz : cf_page_size cfg = 5%Z := proj1 (proj2 (proj2 (proj2 (proj2 (proj2 Hcfg))))).
 Let Hsk : cf_select_keys cfg = [] := proj1 (proj2 (proj2 (proj2 (proj2 (proj2 (proj2 Hcfg)))))).
-Let Hchain : edit_chain cfg := proj2 (proj2 (proj2 (proj2 (proj2 (proj2 (proj2 Hcfg)))))).
+Let Hnab : has_kb cfg = true -> no_alphabet_binding cfg := proj1 (proj2 (proj2 (proj2 (proj2 (proj2 (proj2 (proj2 Hcfg))))))).
+Let Hchain : edit_chain cfg := proj2 (proj2 (proj2 (proj2 (proj2 (proj2 (proj2 (proj2 Hcfg))))))).
 
 (** the composition of a state reachable with the editing alphabet *)
 Definition seg_ok (g : segment) : Prop :=
@@ -822,10 +833,18 @@ Definition pk4 (s : state) (k : key) : state * bool :=
 
 (** the ascii composer, when it stands in front, lets every key of the alphabet through (ascii_mode is off) and only
     clears its pressed-flags *)
-Definition pre (s : state) : state := if has_ac cfg then ac_unpress s else s.
+Definition set_kb_last (x : state) (v : Z) : state :=
+  mkSt (st_ctx x) (st_nav_input x) (st_spans x) (st_commit x) (st_odd x) v (st_ac x) (st_clock x).
+Definition kb_on : bool := has_kb cfg && negb (match cf_bindings cfg with [] => true | _ => false end).
+Definition pre (s : state) (code : Z) : state :=
+  let s1 := if has_ac cfg then ac_unpress s else s in
+  if kb_on then set_kb_last s1 code else s1.
+
+Lemma c05_special code : special code -> c05_code code.
+Proof. intros H. right. exact H. Qed.
 
 Lemma ascii_noop s code :
-  ((97 <= code <= 122)%Z \/ special code) -> get_option (st_ctx s) opt_ascii_mode = false ->
+  c05_code code -> get_option (st_ctx s) opt_ascii_mode = false ->
   ascii_composer_process cfg translate s (mkKey code 0) = (ac_unpress s, PNoop).
 Proof.
   intros Hc Ha. unfold ascii_composer_process.
@@ -843,20 +862,45 @@ Proof.
   cbn [orb andb]. change (st_ctx (ac_unpress s)) with (st_ctx s). rewrite Ha. reflexivity.
 Qed.
 
-Lemma run_chain kb s code :
-  ((97 <= code <= 122)%Z \/ special code) -> get_option (st_ctx s) opt_ascii_mode = false ->
-  (forall s', punctuator_process cfg translate s' (mkKey code 0) = (s', PNoop)) \/
-  (exists s', speller_process cfg translate (pre s) (mkKey code 0) = (s', PAccepted)) ->
-  run_processors (processors cfg translate kb) s (mkKey code 0) = run_processors chain4 (pre s) (mkKey code 0).
+(** the key binder, when it stands in the chain, has no binding for a key of the alphabet: it only records the key
+    (ReinterpretPagingKey's special case needs a period as the previous key, which the alphabet does not have) *)
+Lemma kb_noop R s code :
+  c05_code code -> has_kb cfg = true -> (st_kb_last s =? 46)%Z = false ->
+  key_binder_process cfg translate R false s (mkKey code 0) = ((if kb_on then set_kb_last s code else s), PNoop).
 Proof.
-  intros Hc Ha H. unfold processors, pre.
+  intros Hc Hk Hl. unfold key_binder_process, kb_on. rewrite Hk. cbn [orb andb].
+  destruct (cf_bindings cfg) as [|b0 bs] eqn:Eb; [reflexivity|]. cbn [negb].
+  unfold reinterpret_paging_key. cbn [k_release k_mod k_code Z.testbit Z.eqb].
+  assert (H46 : (code =? 46)%Z = false).
+  { apply Z.eqb_neq. intros ->. destruct Hc as [Hc | Hc]; [lia|]. repeat (destruct Hc as [Hc | Hc]; [discriminate Hc|]). destruct Hc. }
+  rewrite H46, Hl. cbn [andb]. fold (set_kb_last s code).
+  rewrite (Hnab Hk code Hc). reflexivity.
+Qed.
+
+Lemma run_chain R s code :
+  c05_code code -> get_option (st_ctx s) opt_ascii_mode = false -> (st_kb_last s =? 46)%Z = false ->
+  (forall s', punctuator_process cfg translate s' (mkKey code 0) = (s', PNoop)) \/
+  (exists s', speller_process cfg translate (pre s code) (mkKey code 0) = (s', PAccepted)) ->
+  run_processors (processors cfg translate (key_binder_process cfg translate R false)) s (mkKey code 0)
+  = run_processors chain4 (pre s code) (mkKey code 0).
+Proof.
+  intros Hc Ha Hl H. pose proof (kb_noop R) as Hkbn. clearbody Halpha Hdelims Hinitials Hfinals Husp Hpsz Hsk Hnab Hchain. unfold processors, pre.
+  set (kb := key_binder_process cfg translate R false).
+  set (s1 := if has_ac cfg then ac_unpress s else s).
+  assert (Hl1 : (st_kb_last s1 =? 46)%Z = false) by (subst s1; destruct (has_ac cfg); exact Hl).
   assert (Hpre : forall rest, run_processors (map (proc_of cfg translate kb) (ac_pre cfg ++ rest)) s (mkKey code 0)
-                            = run_processors (map (proc_of cfg translate kb) rest) (if has_ac cfg then ac_unpress s else s) (mkKey code 0)).
-  { intros rest. unfold ac_pre. destruct (has_ac cfg); [|reflexivity].
+                            = run_processors (map (proc_of cfg translate kb) rest) s1 (mkKey code 0)).
+  { intros rest. unfold ac_pre. subst s1. destruct (has_ac cfg); [|reflexivity].
     cbn [app map proc_of run_processors]. rewrite (ascii_noop s code Hc Ha). reflexivity. }
-  unfold chain4. destruct Hchain as [(-> & _) | (-> & _)]; rewrite Hpre; [reflexivity|].
-  cbn [map proc_of run_processors]. fold (pre s). destruct H as [Hn | (s' & ->)]; [|reflexivity].
-  destruct (speller_process cfg translate (pre s) (mkKey code 0)) as [s1 r1]. destruct r1; try reflexivity. rewrite Hn. reflexivity.
+  assert (Hkb : forall rest, run_processors (map (proc_of cfg translate kb) (kb_pre cfg ++ rest)) s1 (mkKey code 0)
+                           = run_processors (map (proc_of cfg translate kb) rest) (if kb_on then set_kb_last s1 code else s1) (mkKey code 0)).
+  { intros rest. unfold kb_pre. destruct (has_kb cfg) eqn:Ek.
+    - cbn [app map proc_of run_processors]. subst kb. rewrite (Hkbn s1 code Hc eq_refl Hl1). reflexivity.
+    - unfold kb_on. rewrite Ek. reflexivity. }
+  unfold chain4. destruct Hchain as [(-> & _) | (-> & _)]; rewrite Hpre, Hkb; [reflexivity|].
+  cbn [map proc_of run_processors]. fold s1. change (if kb_on then set_kb_last s1 code else s1) with (pre s code) in *.
+  destruct H as [Hn | (s' & ->)]; [|reflexivity].
+  destruct (speller_process cfg translate (pre s code) (mkKey code 0)) as [s2 r1]. destruct r1; try reflexivity. rewrite Hn. reflexivity.
 Qed.
 
 Lemma pk4_ok s b k :
@@ -959,59 +1003,102 @@ Proof.
   unfold view_of. destruct (ctx_commit_text (st_ctx s)). destruct (menu_view cfg (st_ctx s)). cbn. auto.
 Qed.
 
+(** the key binder's last_key_ is never the period under the alphabet *)
+Definition kb_ok (s : state) : Prop := (st_kb_last s =? 46)%Z = false.
+
+Lemma key_code_c05 k : ekey_ok cfg k = true -> c05_code (key_code_of k).
+Proof.
+  intros Hk. destruct k as [ch| | | | | | |]; try (right; cbn; auto 10; fail).
+  left. unfold ekey_ok in Hk. rewrite Halpha, Hinitials in Hk. apply andb_prop in Hk. apply letter_code, Hk.
+Qed.
+Lemma c05_not_period code : c05_code code -> (code =? 46)%Z = false.
+Proof.
+  intros Hc. apply Z.eqb_neq. intros ->. destruct Hc as [Hc | Hc]; [lia|].
+  repeat (destruct Hc as [Hc | Hc]; [discriminate Hc|]). destruct Hc.
+Qed.
+
+Lemma pk4_kb v s k : kbv v s -> kbv v (fst (pk4 s k)).
+Proof.
+  intros H. unfold pk4.
+  assert (H1 : kbv v (fst (run_processors chain4 s k))).
+  { unfold chain4. cbn [run_processors].
+    pose proof (speller_process_kb cfg translate v s k H) as A1. destruct (speller_process cfg translate s k) as [s1 r1]. cbn [fst] in A1.
+    destruct r1; cbn [fst]; try exact A1.
+    pose proof (selector_process_kb cfg translate v s1 k A1) as A2. destruct (selector_process cfg translate s1 k) as [s2 r2]. cbn [fst] in A2.
+    destruct r2; cbn [fst]; try exact A2.
+    pose proof (navigator_process_kb cfg translate v s2 k A2) as A3. destruct (navigator_process cfg translate s2 k) as [s3 r3]. cbn [fst] in A3.
+    destruct r3; cbn [fst]; try exact A3.
+    pose proof (editor_process_kb cfg translate v s3 k A3) as A4. destruct (editor_process cfg translate s3 k) as [s4 r4]. cbn [fst] in A4.
+    destruct r4; exact A4. }
+  destruct (run_processors chain4 s k) as [s1 ret]. cbn [fst] in H1.
+  destruct ret; cbn [fst]; try exact H1;
+    (pose proof (shape_process_kb v (on_ctx s1 (fun c => ctx_with_hist c (hist_push_key (cx_hist c) k))) k H1) as Hs;
+     destruct (shape_process (on_ctx s1 (fun c => ctx_with_hist c (hist_push_key (cx_hist c) k))) k) as [sx rx];
+     destruct rx; exact Hs).
+Qed.
+
 Lemma process_key_ok s b k :
-  good s b -> ekey_ok cfg k = true ->
-  good (fst (process_key cfg translate s (mkKey (key_code_of k) 0))) (buf_step b k) /\
+  good s b -> kb_ok s -> ekey_ok cfg k = true ->
+  (good (fst (process_key cfg translate s (mkKey (key_code_of k) 0))) (buf_step b k) /\
+   kb_ok (fst (process_key cfg translate s (mkKey (key_code_of k) 0)))) /\
   snd (process_key cfg translate s (mkKey (key_code_of k) 0)) = handled_spec b k.
 Proof.
-  intros Hg Hk.
-  assert (Hgp : good (pre s) b) by (unfold pre; destruct (has_ac cfg); exact Hg).
+  intros Hg Hkb Hk.
+  pose proof (key_code_c05 k Hk) as Hc.
+  set (code := key_code_of k) in *.
+  assert (Hgp : good (pre s code) b).
+  { unfold pre. destruct (has_ac cfg); destruct kb_on; exact Hg. }
+  assert (Hkp : kb_ok (pre s code)).
+  { unfold pre, kb_ok. destruct kb_on; [cbn [st_kb_last set_kb_last]; apply c05_not_period, Hc|].
+    destruct (has_ac cfg); exact Hkb. }
   assert (Ha : get_option (st_ctx s) opt_ascii_mode = false).
   { destruct Hg as ((Hok & _) & _). unfold get_option. rewrite (proj1 (proj2 (proj2 (proj2 Hok)))). unfold init_opts.
     cbn [opts_get]. replace (bytes_eqb opt_auto_commit opt_ascii_mode) with false by reflexivity. reflexivity. }
-  assert (Hrun : forall kb, run_processors (processors cfg translate kb) s (mkKey (key_code_of k) 0)
-                          = run_processors chain4 (pre s) (mkKey (key_code_of k) 0)).
-  { intros kb. destruct (ekey_is_letter k) eqn:Elet.
+  assert (Hrun : forall R, run_processors (processors cfg translate (key_binder_process cfg translate R false)) s (mkKey code 0)
+                          = run_processors chain4 (pre s code) (mkKey code 0)).
+  { intros R. destruct (ekey_is_letter k) eqn:Elet.
     - destruct k as [ch| | | | | | |]; try discriminate Elet.
       assert (Hch : letter ch).
       { unfold ekey_ok in Hk. rewrite Halpha, Hinitials in Hk. apply andb_prop in Hk. apply Hk. }
-      apply run_chain; [left; apply letter_code, Hch | exact Ha|].
-      right. eexists. apply (speller_letter (pre s) ch Hch).
+      apply run_chain; [exact Hc | exact Ha | exact Hkb|].
+      right. eexists. apply (speller_letter (pre s code) ch Hch).
     - pose proof (special_of k Elet) as Hsp.
-      apply run_chain; [right; exact Hsp | exact Ha|]. left. intros s'. apply punctuator_nonletter, special_ge, Hsp. }
+      apply run_chain; [exact Hc | exact Ha | exact Hkb|]. left. intros s'. apply punctuator_nonletter, special_ge, Hsp. }
   unfold process_key, kb_fuel. cbn [process_key_n]. unfold process_key_gen. rewrite Hrun.
-  exact (pk4_ok (pre s) b k Hgp Hk).
+  destruct (pk4_ok (pre s code) b k Hgp Hk) as (G & Hh). split; [split; [exact G|]|exact Hh].
+  unfold kb_ok. pose proof (pk4_kb (st_kb_last (pre s code)) (pre s code) (mkKey code 0) eq_refl) as F.
+  unfold kbv in F. fold (pk4 (pre s code) (mkKey code 0)). rewrite F. exact Hkp.
 Qed.
 
 Lemma step_key_ok s b k :
-  good s b -> ekey_ok cfg k = true ->
-  good (fst (step cfg translate s (op_of_ekey k))) (buf_step b k) /\
+  good s b -> kb_ok s -> ekey_ok cfg k = true ->
+  (good (fst (step cfg translate s (op_of_ekey k))) (buf_step b k) /\ kb_ok (fst (step cfg translate s (op_of_ekey k)))) /\
   edit_summary (snd (step cfg translate s (op_of_ekey k)))
   = Some (handled_spec b k, b_text (buf_step b k), b_caret (buf_step b k), []).
 Proof.
-  intros Hg Hk. destruct (process_key_ok s b k Hg Hk) as (Hg' & Hh).
+  intros Hg Hkb Hk. destruct (process_key_ok s b k Hg Hkb Hk) as ((Hg' & Hkb') & Hh).
   unfold step. assert (He : cx_err (st_ctx s) = None) by apply Hg. rewrite He.
   unfold op_of_ekey. cbn [exec].
   destruct (process_key cfg translate s (mkKey (key_code_of k) 0)) as [s1 h] eqn:Ep. cbn [fst snd] in *.
   pose proof (view_ok s1 (proj1 (proj1 Hg'))) as Hv. pose proof (view_fields s1) as Hf.
   destruct (view_of cfg s1) as [v ve]. cbn [fst snd] in *. subst ve.
   assert (He1 : cx_err (st_ctx s1) = None) by apply Hg'. rewrite He1. cbn [fst snd edit_summary].
-  split; [exact Hg'|]. destruct Hf as (F1 & F2 & F3). destruct Hg' as ((_ & G1 & G2) & G3).
+  split; [split; [exact Hg' | exact Hkb']|]. destruct Hf as (F1 & F2 & F3). destruct Hg' as ((_ & G1 & G2) & G3).
   rewrite F1, F2, F3, G1, G2, G3, Hh. reflexivity.
 Qed.
 
 Lemma run_keys_ok keys : forall s b,
-  good s b -> Forall (fun k => ekey_ok cfg k = true) keys ->
+  good s b -> kb_ok s -> Forall (fun k => ekey_ok cfg k = true) keys ->
   good (fst (run_from cfg translate s (map op_of_ekey keys))) (fold_left buf_step keys b) /\
   map edit_summary (snd (run_from cfg translate s (map op_of_ekey keys)))
   = map (fun x => Some (x, [])) (buf_trace b keys).
 Proof.
-  induction keys as [|k keys IH]; intros s b Hg Hk; [cbn; auto|].
+  induction keys as [|k keys IH]; intros s b Hg Hkb Hk; [cbn; auto|].
   inversion Hk as [|? ? Hk1 Hk2]; subst.
-  destruct (step_key_ok s b k Hg Hk1) as (Hg1 & Ho).
+  destruct (step_key_ok s b k Hg Hkb Hk1) as ((Hg1 & Hkb1) & Ho).
   cbn [map run_from fold_left buf_trace].
   destruct (step cfg translate s (op_of_ekey k)) as [s1 o1]. cbn [fst snd] in *.
-  destruct (IH s1 (buf_step b k) Hg1 Hk2) as (Hg2 & Hos).
+  destruct (IH s1 (buf_step b k) Hg1 Hkb1 Hk2) as (Hg2 & Hos).
   destruct (run_from cfg translate s1 (map op_of_ekey keys)) as [s2 os]. cbn [fst snd map] in *.
   split; [exact Hg2|]. now rewrite Ho, Hos.
 Qed.
@@ -1030,7 +1117,7 @@ Theorem edit_refines_buffer_gen keys :
   st_commit (fst r) = [] /\
   map edit_summary (snd r) = map (fun x => Some (x, [])) (buf_trace buf_empty keys).
 Proof.
-  intros Hk. destruct (run_keys_ok keys (init_state cfg) buf_empty init_good Hk) as (((_ & G1 & G2) & G3) & Ho).
+  intros Hk. destruct (run_keys_ok keys (init_state cfg) buf_empty init_good eq_refl Hk) as (((_ & G1 & G2) & G3) & Ho).
   unfold run, buf_run. cbv zeta. auto.
 Qed.
 
@@ -1038,7 +1125,7 @@ End Edit.
 
 (** the synthetic schemas are such configurations *)
 Lemma synth_edit_cfg fluid dlog : edit_cfg (synth_cfg fluid dlog).
-Proof. repeat (split; [reflexivity|]). left. split; reflexivity. Qed.
+Proof. repeat (split; [reflexivity|]). split; [discriminate|]. left. split; reflexivity. Qed.
 
 Lemma synth_no_letter_punct fluid dlog : no_letter_punct (synth_punct_cfg fluid dlog).
 Proof.
@@ -1046,7 +1133,7 @@ Proof.
 Qed.
 Lemma synth_punct_edit_cfg fluid dlog : edit_cfg (synth_punct_cfg fluid dlog).
 Proof.
-  repeat (split; [reflexivity|]). right. split; [reflexivity|]. split; [reflexivity|]. apply synth_no_letter_punct.
+  repeat (split; [reflexivity|]). split; [discriminate|]. right. split; [reflexivity|]. split; [reflexivity|]. apply synth_no_letter_punct.
 Qed.
 
 Lemma synth_acedit_no_letter_punct fluid dlog : no_letter_punct (synth_acedit_cfg fluid dlog).
@@ -1055,7 +1142,47 @@ Proof.
 Qed.
 Lemma synth_acedit_edit_cfg fluid dlog : edit_cfg (synth_acedit_cfg fluid dlog).
 Proof.
-  repeat (split; [reflexivity|]). right. split; [reflexivity|]. split; [reflexivity|]. apply synth_acedit_no_letter_punct.
+  repeat (split; [reflexivity|]). split; [discriminate|]. right. split; [reflexivity|]. split; [reflexivity|]. apply synth_acedit_no_letter_punct.
+Qed.
+
+(** a decision procedure for [no_alphabet_binding]: no binding accepts an unmodified key of the alphabet *)
+Definition c05_codeb (code : Z) : bool :=
+  ((97 <=? code) && (code <=? 122))%Z ||
+  existsb (Z.eqb code) [XK_BackSpace; XK_Delete; XK_KP_Left; XK_KP_Right; XK_Home; XK_End; XK_Escape].
+Lemma c05_codeb_spec code : c05_code code -> c05_codeb code = true.
+Proof.
+  intros [H | H]; unfold c05_codeb.
+  - replace ((97 <=? code) && (code <=? 122))%Z with true; [reflexivity|]. symmetry. apply andb_true_iff. split; apply Z.leb_le; lia.
+  - apply orb_true_iff. right. apply existsb_exists. exists code. split; [exact H | apply Z.eqb_refl].
+Qed.
+Lemma no_alphabet_binding_dec cfg :
+  forallb (fun b => negb ((k_mod (kb_accept b) =? 0)%Z && c05_codeb (k_code (kb_accept b)))) (cf_bindings cfg) = true ->
+  no_alphabet_binding cfg.
+Proof.
+  intros H code Hc. unfold kb_vector.
+  assert (G : forall l v, forallb (fun b => negb ((k_mod (kb_accept b) =? 0)%Z && c05_codeb (k_code (kb_accept b)))) l = true ->
+              fold_left (fun v b => if key_eqb (kb_accept b) (mkKey code 0) then kb_insert v b else v) l v = v).
+  { induction l as [|b l IH]; intros v Hl; [reflexivity|]. cbn [forallb] in Hl. apply andb_prop in Hl as (Hb & Hl).
+    cbn [fold_left]. replace (key_eqb (kb_accept b) (mkKey code 0)) with false; [apply IH, Hl|].
+    symmetry. unfold key_eqb. cbn [k_code k_mod]. destruct (k_code (kb_accept b) =? code)%Z eqn:E1; [|reflexivity].
+    destruct (k_mod (kb_accept b) =? 0)%Z eqn:E2; [|reflexivity]. exfalso.
+    apply Z.eqb_eq in E1. rewrite E1, (c05_codeb_spec code Hc) in Hb. cbn in Hb. discriminate Hb. }
+  apply G, H.
+Qed.
+
+(** the stock chain order with ascii_composer, key_binder and the punctuator (synth_ascii_express|fluid, synth_kb_express|fluid): their bindings
+    (Control+letter, Tab, comma / period / minus / equal / bracketleft) accept no key of the alphabet *)
+Lemma synth_ascii_edit_cfg fluid dlog : edit_cfg (synth_ascii_cfg fluid dlog).
+Proof.
+  repeat (split; [reflexivity|]). split; [intros _; apply no_alphabet_binding_dec; destruct fluid; vm_compute; reflexivity|].
+  right. split; [reflexivity|]. split; [reflexivity|].
+  intros b Hb. unfold letter in Hb. destruct fluid; destruct b; vm_compute in Hb; try discriminate Hb; split; reflexivity.
+Qed.
+Lemma synth_kb_edit_cfg fluid dlog : edit_cfg (synth_kb_cfg fluid dlog).
+Proof.
+  repeat (split; [reflexivity|]). split; [intros _; apply no_alphabet_binding_dec; destruct fluid; vm_compute; reflexivity|].
+  right. split; [reflexivity|]. split; [reflexivity|].
+  intros b Hb. unfold letter in Hb. destruct fluid; destruct b; vm_compute in Hb; try discriminate Hb; split; reflexivity.
 Qed.
 
 (** the statement as it was before the chains became configurable (synth_express / synth_fluid) *)
@@ -1088,3 +1215,22 @@ Theorem edit_refines_buffer_ascii (fluid dlog : bool) (translate : bytes -> segi
   st_commit (fst r) = [] /\
   map edit_summary (snd r) = map (fun x => Some (x, [])) (buf_trace buf_empty keys).
 Proof. apply edit_refines_buffer_gen, synth_acedit_edit_cfg. Qed.
+
+(** round 4: the stock chain order - ascii_composer, key_binder, speller, punctuator, selector, navigator, editor over
+    ascii_segmentor, abc_segmentor, punct_segmentor, fallback_segmentor - with the 28 bindings of the synthetic schemas *)
+Theorem edit_refines_buffer_stock_order (fluid dlog : bool) (translate : bytes -> seginfo -> list cand) keys :
+  Forall (fun k => ekey_ok (synth_ascii_cfg fluid dlog) k = true) keys ->
+  let r := run (synth_ascii_cfg fluid dlog) translate (map op_of_ekey keys) in
+  cx_input (st_ctx (fst r)) = b_text (buf_run keys) /\
+  cx_caret (st_ctx (fst r)) = b_caret (buf_run keys) /\
+  st_commit (fst r) = [] /\
+  map edit_summary (snd r) = map (fun x => Some (x, [])) (buf_trace buf_empty keys).
+Proof. apply edit_refines_buffer_gen, synth_ascii_edit_cfg. Qed.
+Theorem edit_refines_buffer_kb (fluid dlog : bool) (translate : bytes -> seginfo -> list cand) keys :
+  Forall (fun k => ekey_ok (synth_kb_cfg fluid dlog) k = true) keys ->
+  let r := run (synth_kb_cfg fluid dlog) translate (map op_of_ekey keys) in
+  cx_input (st_ctx (fst r)) = b_text (buf_run keys) /\
+  cx_caret (st_ctx (fst r)) = b_caret (buf_run keys) /\
+  st_commit (fst r) = [] /\
+  map edit_summary (snd r) = map (fun x => Some (x, [])) (buf_trace buf_empty keys).
+Proof. apply edit_refines_buffer_gen, synth_kb_edit_cfg. Qed.
